@@ -99,6 +99,10 @@ def constants():
         c.update(_procvar_literals())
     except Exception:
         pass
+    try:    # C23: randrange bounds of get_ethertype / FMMULock, bitmap size, window geometry (probed on real objects in a scratch dir)
+        c.update(_parallel_literals())
+    except Exception:
+        pass
     return c
 
 
@@ -345,3 +349,46 @@ def _procvar_literals():
     out["pv_start_probe"] = int(start)       # base 100, position 7
     out["pv_addr_probe"] = int(addr)
     return out
+
+
+def _parallel_literals():
+    """C23: `ParallelEtherCat.get_ethertype` is run on a scratch lock directory in which the default
+    ethertype is taken (the recorded `randrange` arguments are the ethertype range); `FMMULock` is
+    created twice on a scratch file (first: creator, bitmap size and first window; second: recorded
+    `randrange` arguments = number of process slots, returned slot 5 gives the window size);
+    `get_next_addr` gives the per-sync-group step."""
+    import os
+    import tempfile
+    from ebpfcat import ebpfcat as eb, lock as lk
+    rec = {}
+    with tempfile.TemporaryDirectory(prefix="c23_probe_") as d:
+        open(f"{d}/{eb.EtherCat.ethertype}.lock", "w").close()
+        pe = eb.ParallelEtherCat.__new__(eb.ParallelEtherCat)
+        saved = eb.randrange, lk.randrange
+        try:
+            def rr_et(a, b):
+                rec["et"] = (a, b)
+                return a
+            eb.randrange = rr_et
+            name = pe.get_ethertype(d)
+            if name != f"{rec['et'][0]}.lock" or pe.ethertype != rec["et"][0]:
+                raise ValueError("unexpected get_ethertype")
+
+            def rr_fm(a, b):
+                rec["fm"] = (a, b)
+                return 5
+            lk.randrange = rr_fm
+            f1 = lk.FMMULock(f"{d}/x.fmmu")
+            size = os.path.getsize(f"{d}/x.fmmu")
+            first = f1.base_addr
+            f2 = lk.FMMULock(f"{d}/x.fmmu")
+            base5 = f2.base_addr
+            step = f2.get_next_addr() - base5
+            os.close(f1.fd)
+            os.close(f2.fd)
+        finally:
+            eb.randrange, lk.randrange = saved
+    if rec["fm"][0] != 1 or base5 % 5 or first * 5 != base5 or size * 8 != rec["fm"][1]:
+        raise ValueError("unexpected FMMULock geometry")
+    return {"etLo": int(rec["et"][0]), "etHi": int(rec["et"][1]), "fmSize": int(size), "fmProcs": int(rec["fm"][1]),
+            "fmWindow": int(base5 // 5), "fmGroup": int(step)}
